@@ -22,6 +22,7 @@
 #include <stdint.h>
 #include <string>
 #include <vector>
+#include <algorithm>
 #include <deque>
 #include <map>
 #include <queue>
@@ -826,6 +827,7 @@ class MessagePriorityQueue
         break;
       }
     }
+    rebuild();  // erasing from the middle and weight changes of queued elements break the heap order
     priority_queue<Message*, vector<Message*>, compareMessagePriority>::push(__x);
   }
   /**
@@ -839,6 +841,13 @@ class MessagePriorityQueue
         break;
       }
     }
+    rebuild();
+  }
+  /**
+   * Re-establish the heap order, e.g. after the weight of a queued element was changed.
+   */
+  void rebuild() {
+    std::make_heap(c.begin(), c.end(), comp);
   }
 };
 
